@@ -98,6 +98,8 @@ func C12(c *Ctx) {
 	c.R.Rule("C12-R9", "E1", "scripts get copies: machines that share a spec and a message cannot write each other's data through a script", 1)
 	c.R.Rule("C12-R11", "E1", "the single-loop host compiles a private copy of the specification it is given: machines never share a Spec that is compiled in place", 3)
 	c12OwnSpec(c, "C12-R11")
+	c.R.Rule("C12-R12", "E7", "a compiled action stays bound to the interpreter that compiled it", 1)
+	c12CompiledBinding(c, "C12-R12")
 	c.shareRule("C20", "C20-R8", "C12-R10", "the analysis and rendering tools only read the specification they are given (a compiled spec that is being rendered may be serving machines at the same time)")
 	if ea, _ := c.ecmaAnalysis(); ea != nil {
 		if c.scriptIsolation("C12-R9", ea, false) == 0 {
